@@ -1742,3 +1742,229 @@ Definition with_exit_exc_close_only (sh : shapes) : shapes :=
   mkShapes (sh_exit sh) (sh_del sh) (sh_avro_flush_placeholder sh) (sh_avro_close_placeholder sh)
            (sh_avro_close_flushes sh) (sh_stream_close_flushes sh) (sh_split_ge sh) (sh_split_roll sh) (sh_rotate_counter sh)
            (sh_split_stdout_netloc sh) (sh_split_stdout_path sh) [MClose].
+
+(* ------------------------------------------------------------------------------------------------ *)
+(* flush / close / with-exit / del never raise (whatever the state); only write() may                 *)
+
+Section NeverRaise.
+Variable sh : shapes.
+Variable batch : nat.
+Hypothesis SH : shapes_ok sh = true.
+
+Lemma do_flush_ok k st : snd (do_flush sh k st) = Ok.
+Proof.
+  destruct (shapes_ok_inv2 sh SH) as (Hfp & _ & _). unfold do_flush, avro_flush. rewrite Hfp.
+  destruct k; cbn; try reflexivity. destruct (w_open st); [destruct (w_awr st)|]; reflexivity.
+Qed.
+Lemma do_calls_ok k cs : forall st, snd (do_calls sh k st cs) = Ok.
+Proof.
+  induction cs as [|c cs IH]; intros st; cbn; [reflexivity|]. destruct c; cbn [do_call].
+  - pose proof (do_flush_ok k st) as H. destruct (do_flush sh k st) as [s1 o1]. cbn in H. subst o1. apply IH.
+  - pose proof (do_close_closed sh k st) as [_ H]. destruct (do_close sh k st) as [s1 o1]. cbn in H. subst o1. apply IH.
+Qed.
+Lemma step_not_write_ok k st o : (forall r, o <> Write r) -> snd (step sh batch k st o) = Ok.
+Proof.
+  intros H. destruct o; cbn [step].
+  - exfalso. eapply H. reflexivity.
+  - apply do_flush_ok.
+  - apply (do_close_closed sh k st).
+  - apply do_calls_ok.
+  - apply do_calls_ok.
+  - apply do_calls_ok.
+Qed.
+
+Definition outcome_allowed (p : op * outcome) : Prop :=
+  match fst p with Write _ => True | _ => snd p = Ok end.
+
+Theorem close_flush_never_raise k h : forall st,
+  Forall outcome_allowed (combine h (outcomes sh batch k st h)).
+Proof.
+  induction h as [|o h IH]; intros st; cbn; [constructor|].
+  pose proof (step_not_write_ok k st o) as Hs. destruct (step sh batch k st o) as [st' out]. cbn.
+  constructor; [|apply IH]. unfold outcome_allowed. cbn. destruct o; auto; apply Hs; intros r; discriminate.
+Qed.
+End NeverRaise.
+
+(* ------------------------------------------------------------------------------------------------ *)
+(* the stdout target                                                                                  *)
+
+(* the first closing operation of the history is leaving a with-block (the writer is still open then) *)
+Fixpoint first_close_is_exit (h : list op) : bool :=
+  match h with
+  | Write _ :: t | Flush :: t => first_close_is_exit t
+  | WithExit :: _ | WithExitExc :: _ => true
+  | _ => false
+  end.
+
+Section StdoutProofs.
+Variable sh : shapes.
+Hypothesis SH : shapes_ok sh = true.
+Variable os : oshape.
+
+Notation o_step := (Writers.o_step sh os).
+Notation o_run := (Writers.o_run sh os).
+Notation o_calls := (Writers.o_calls os).
+
+Definition o_all (st : ostate) : list rec := o_delivered st ++ o_pending st.
+
+Lemma o_deliver_all st : o_all (o_deliver st) = o_all st.
+Proof. unfold o_all, o_deliver. cbn. rewrite app_nil_r. reflexivity. Qed.
+
+Lemma o_flush_all st : o_all (fst (o_flush os st)) = o_all st /\ snd (o_flush os st) = Ok.
+Proof. unfold o_flush. cbn. split; [|reflexivity]. destruct (o_open st && o_flush_delivers os); [apply o_deliver_all | reflexivity]. Qed.
+Lemma o_close_all st : o_all (fst (o_close os st)) = o_all st /\ snd (o_close os st) = Ok.
+Proof.
+  unfold o_close. destruct (o_open st); cbn; [|auto]. split; [|reflexivity].
+  destruct (o_close_delivers os); [rewrite <- (o_deliver_all st)|]; reflexivity.
+Qed.
+Lemma o_calls_all cs : forall st, o_all (fst (o_calls st cs)) = o_all st /\ snd (o_calls st cs) = Ok.
+Proof.
+  induction cs as [|c cs IH]; intros st; cbn; [auto|]. destruct c.
+  - destruct (o_flush_all st) as [A O]. destruct (o_flush os st) as [s1 o1]. cbn in *. subst o1.
+    destruct (IH s1) as [A1 O1]. rewrite A1, A. auto.
+  - destruct (o_close_all st) as [A O]. destruct (o_close os st) as [s1 o1]. cbn in *. subst o1.
+    destruct (IH s1) as [A1 O1]. rewrite A1, A. auto.
+Qed.
+
+Lemma o_step_all st o : o_all (fst (o_step st o)) = o_all st ++ newly o (snd (o_step st o)).
+Proof.
+  destruct o; cbn [Writers.o_step].
+  - unfold o_write. destruct (o_open st); cbn.
+    + destruct (o_write_delivers os); [rewrite o_deliver_all|]; unfold o_all; cbn; rewrite app_assoc; reflexivity.
+    + destruct (o_write_after_close os && negb match o_delivered st ++ o_pending st with [] => true | _ :: _ => false end);
+        cbn; [unfold o_all; cbn; rewrite app_assoc; reflexivity | rewrite app_nil_r; reflexivity].
+  - destruct (o_flush_all st) as [A O]. rewrite O, A. cbn. rewrite app_nil_r. reflexivity.
+  - destruct (o_close_all st) as [A O]. rewrite O, A. cbn. rewrite app_nil_r. reflexivity.
+  - destruct (o_calls_all (sh_exit sh) st) as [A O]. rewrite O, A. cbn. rewrite app_nil_r. reflexivity.
+  - destruct (o_calls_all (sh_exit_exc sh) st) as [A O]. rewrite O, A. cbn. rewrite app_nil_r. reflexivity.
+  - destruct (o_calls_all (sh_del sh) st) as [A O]. rewrite O, A. cbn. rewrite app_nil_r. reflexivity.
+Qed.
+
+Lemma o_run_cons st o h :
+  o_run st (o :: h) = let (st', out) := o_step st o in let (st'', acc) := o_run st' h in (st'', newly o out ++ acc).
+Proof. cbn. destruct (o_step st o) as [st' out]. destruct (o_run st' h). destruct o, out; reflexivity. Qed.
+
+(* nothing is lost or invented: delivered ++ pending = the records accepted *)
+Lemma o_run_all h : forall st, o_all (fst (o_run st h)) = o_all st ++ snd (o_run st h).
+Proof.
+  induction h as [|o h IH]; intros st; [cbn; rewrite app_nil_r; reflexivity|].
+  rewrite o_run_cons. pose proof (o_step_all st o) as A. destruct (o_step st o) as [st' out]. cbn [fst snd] in A.
+  specialize (IH st'). destruct (o_run st' h) as [s2 a2]. cbn [fst snd] in *. rewrite IH, A, app_assoc. reflexivity.
+Qed.
+
+(* a closed writer changes nothing any more *)
+Lemma o_closed_calls cs : forall st, o_open st = false -> fst (o_calls st cs) = st.
+Proof.
+  induction cs as [|c cs IH]; intros st H; cbn; [reflexivity|]. destruct c.
+  - unfold o_flush. rewrite H. cbn. apply IH. exact H.
+  - unfold o_close. rewrite H. apply IH. exact H.
+Qed.
+Definition is_write (o : op) : bool := match o with Write _ => true | _ => false end.
+Definition no_writes (h : list op) : bool := negb (existsb is_write h).
+(* no write() after the first closing operation *)
+Fixpoint no_write_after_close (h : list op) : bool :=
+  match h with
+  | [] => true
+  | o :: t => if is_closing o then no_writes t else no_write_after_close t
+  end.
+
+Lemma o_closed_step st o : o_open st = false -> o_write_after_close os = false \/ is_write o = false ->
+  fst (o_step st o) = st.
+Proof.
+  intros H Hw. destruct o; cbn [Writers.o_step]; try (apply o_closed_calls; exact H).
+  - unfold o_write. rewrite H. destruct Hw as [Hw|Hw]; [rewrite Hw; reflexivity | discriminate].
+  - unfold o_flush. rewrite H. reflexivity.
+  - unfold o_close. rewrite H. reflexivity.
+Qed.
+Lemma o_closed_run h : forall st, o_open st = false -> o_write_after_close os = false \/ no_writes h = true ->
+  fst (o_run st h) = st.
+Proof.
+  induction h as [|o h IH]; intros st H Hw; [reflexivity|]. rewrite o_run_cons.
+  assert (Hw1 : o_write_after_close os = false \/ is_write o = false).
+  { destruct Hw as [Hw|Hw]; [left; exact Hw | right]. unfold no_writes in Hw. cbn in Hw. apply negb_true_iff in Hw.
+    apply orb_false_elim in Hw. tauto. }
+  assert (Hw2 : o_write_after_close os = false \/ no_writes h = true).
+  { destruct Hw as [Hw|Hw]; [left; exact Hw | right]. unfold no_writes in *. cbn in Hw. apply negb_true_iff in Hw.
+    apply orb_false_elim in Hw. apply negb_true_iff. tauto. }
+  pose proof (o_closed_step st o H Hw1) as E. destruct (o_step st o) as [st' out]. cbn [fst] in E. subst st'.
+  specialize (IH st H Hw2). destruct (o_run st h) as [s2 a2]. exact IH.
+Qed.
+
+(* leaving the with-block of a writer that is still open empties the buffer *)
+Lemma o_exit_calls st : o_flush_delivers os = true -> o_open st = true ->
+  o_pending (fst (o_calls st [MFlush; MClose])) = [] /\ o_open (fst (o_calls st [MFlush; MClose])) = false.
+Proof.
+  intros Hf Ho. cbn. unfold o_flush. rewrite Ho, Hf. cbn. unfold o_close. cbn. rewrite Ho.
+  destruct (o_close_delivers os); cbn; auto.
+Qed.
+
+Theorem o_exit_delivers h : o_flush_delivers os = true -> forall st, o_open st = true ->
+  first_close_is_exit h = true -> o_write_after_close os = false \/ no_write_after_close h = true ->
+  o_pending (fst (o_run st h)) = [].
+Proof.
+  intros Hf. destruct (shapes_ok_inv sh SH) as (He & _ & _). pose proof (shapes_ok_exc sh SH) as Hx.
+  induction h as [|o h IH]; intros st Ho Hc Hn; [discriminate|]. rewrite o_run_cons.
+  destruct o; cbn [first_close_is_exit] in Hc; try discriminate; cbn [Writers.o_step]; cbn [no_write_after_close is_closing] in Hn.
+  - assert (Ho1 : o_open (fst (o_write os st r)) = true).
+    { unfold o_write. rewrite Ho. cbn. destruct (o_write_delivers os); reflexivity. }
+    destruct (o_write os st r) as [s1 o1]. cbn [fst] in Ho1. specialize (IH s1 Ho1 Hc Hn). destruct (o_run s1 h). exact IH.
+  - assert (Ho1 : o_open (fst (o_flush os st)) = true).
+    { unfold o_flush. cbn. destruct (o_open st && o_flush_delivers os); exact Ho. }
+    destruct (o_flush os st) as [s1 o1]. cbn [fst] in Ho1. specialize (IH s1 Ho1 Hc Hn). destruct (o_run s1 h). exact IH.
+  - rewrite He. destruct (o_exit_calls st Hf Ho) as [P C]. destruct (o_calls st [MFlush; MClose]) as [s1 o1]. cbn [fst] in *.
+    pose proof (o_closed_run h s1 C Hn) as E. destruct (o_run s1 h) as [s2 a2]. cbn [fst] in *. subst s2. exact P.
+  - rewrite Hx. destruct (o_exit_calls st Hf Ho) as [P C]. destruct (o_calls st [MFlush; MClose]) as [s1 o1]. cbn [fst] in *.
+    pose proof (o_closed_run h s1 C Hn) as E. destruct (o_run s1 h) as [s2 a2]. cbn [fst] in *. subst s2. exact P.
+Qed.
+
+(* a writer that flushes after every record never leaves anything in the buffer *)
+Lemma o_calls_pending_nil cs : forall st, o_pending st = [] -> o_pending (fst (o_calls st cs)) = [].
+Proof.
+  induction cs as [|c cs IH]; intros st H; cbn; [exact H|]. destruct c.
+  - unfold o_flush. cbn. apply IH. destruct (o_open st && o_flush_delivers os); [reflexivity | exact H].
+  - unfold o_close. destruct (o_open st); cbn; apply IH; [|exact H]. destruct (o_close_delivers os); [reflexivity | exact H].
+Qed.
+Theorem o_autoflush_delivers h : o_write_delivers os = true -> o_write_after_close os = false ->
+  forall st, o_pending st = [] -> o_pending (fst (o_run st h)) = [].
+Proof.
+  intros Hw Hac. induction h as [|o h IH]; intros st H; [exact H|]. rewrite o_run_cons.
+  assert (H1 : o_pending (fst (o_step st o)) = []).
+  { destruct o; cbn [Writers.o_step]; try (apply o_calls_pending_nil; exact H).
+    - unfold o_write. destruct (o_open st); cbn; [rewrite Hw; reflexivity | rewrite Hac; exact H].
+    - unfold o_flush. cbn. destruct (o_open st && o_flush_delivers os); [reflexivity | exact H].
+    - unfold o_close. destruct (o_open st); cbn; [|exact H]. destruct (o_close_delivers os); [reflexivity | exact H]. }
+  destruct (o_step st o) as [s1 o1]. cbn [fst] in H1. specialize (IH s1 H1). destruct (o_run s1 h). exact IH.
+Qed.
+
+(* with nothing pending, everything accepted has been delivered *)
+Lemma o_delivered_all h : o_pending (fst (o_run o_init h)) = [] -> o_delivered (fst (o_run o_init h)) = snd (o_run o_init h).
+Proof.
+  intros H. pose proof (o_run_all h o_init) as A. unfold o_all in A. rewrite H, app_nil_r in A. exact A.
+Qed.
+
+End StdoutProofs.
+
+(* packaged for props/C17.v *)
+Definition all_okinds : list okind := [OStream; OPrinter; OJson; OCsv; OLine; OText; OAvro].
+Lemma all_okinds_complete k : In k all_okinds.
+Proof. destruct k; cbn; tauto. Qed.
+
+Theorem stdout_exit_delivers sh (oshapes : okind -> oshape) :
+  shapes_ok sh = true -> forallb (fun k => o_flush_delivers (oshapes k)) all_okinds = true ->
+  forall kind h, first_close_is_exit h = true ->
+  o_write_after_close (oshapes kind) = false \/ no_write_after_close h = true ->
+  o_pending (fst (o_run sh (oshapes kind) o_init h)) = [] /\
+  o_delivered (fst (o_run sh (oshapes kind) o_init h)) = snd (o_run sh (oshapes kind) o_init h).
+Proof.
+  intros SH Hall kind h Hc Hn. rewrite forallb_forall in Hall. specialize (Hall kind (all_okinds_complete kind)).
+  assert (P : o_pending (fst (o_run sh (oshapes kind) o_init h)) = [])
+    by (apply (o_exit_delivers sh SH (oshapes kind) h Hall o_init eq_refl Hc Hn)).
+  split; [exact P | apply o_delivered_all; exact P].
+Qed.
+
+Theorem stdout_autoflush_delivers sh os : o_write_delivers os = true -> o_write_after_close os = false -> forall h,
+  o_pending (fst (o_run sh os o_init h)) = [] /\ o_delivered (fst (o_run sh os o_init h)) = snd (o_run sh os o_init h).
+Proof.
+  intros Hw Hac h. assert (P : o_pending (fst (o_run sh os o_init h)) = []) by (apply (o_autoflush_delivers sh os h Hw Hac o_init eq_refl)).
+  split; [exact P | apply o_delivered_all; exact P].
+Qed.
